@@ -77,6 +77,18 @@ def fixesOf (j : Json) : Fixes :=
     | .error _ => false
   { d18 := f "d18", d41 := f "d41", d44 := f "d44", d45 := f "d45", d52 := f "d52" }
 
+/-- "dyn": [[id, "f", typeName] | [id, "h", classId]] -/
+def dynOfJ (j : Json) : List (Nat × DynTy) :=
+  match j.getObjVal? "dyn" with
+  | .ok (.arr a) => a.toList.filterMap fun e =>
+      match e with
+      | .arr #[i, .str "f", .str n] => (i.getNat?.toOption).map fun k => (k, DynTy.foreign (toStr n))
+      | .arr #[i, .str "h", c] => match i.getNat?.toOption, c.getNat?.toOption with
+        | some k, some cc => some (k, DynTy.heap cc)
+        | _, _ => none
+      | _ => none
+  | _ => []
+
 def handle (j : Json) : Except String Json := do
   let op ← jstr j "op"
   match op with
@@ -89,7 +101,7 @@ def handle (j : Json) : Except String Json := do
       | none => ExecOutcome.ok objs
     let inp : ReloadIn := { name := toStr (← jstr j "name"), module := ← jnat j "module",
                             compileOk := ← jbool j "compileOk", outcome := outcome,
-                            mtime := ← objOf (← jobj j "mtime"), fuel := ← jnat j "fuel", fx := fixesOf j }
+                            mtime := ← objOf (← jobj j "mtime"), fuel := ← jnat j "fuel", fx := fixesOf j, dyn := dynOfJ j }
     -- the mtime / unchanged-text guard (absent fields: the reload is attempted)
     let lt := (j.getObjValAs? Nat "loadtime").toOption.getD 0
     let mt := (j.getObjValAs? Nat "mtimeNs").toOption.getD lt
@@ -105,7 +117,7 @@ def handle (j : Json) : Except String Json := do
   | "livepatch" =>
     let heap ← (← jarr j "heap").toList.mapM objOf
     let sysmods ← pairsOf (← jarr j "sysmods")
-    let cx : Ctx := { modname := optStr j "modname", sysmods := sysmods, fx := fixesOf j }
+    let cx : Ctx := { modname := optStr j "modname", sysmods := sysmods, fx := fixesOf j, dyn := dynOfJ j }
     match livepatch cx (← jnat j "fuel") heap (← jnat j "old") (← jnat j "new") with
     | .ok (r, h) => pure (Json.mkObj [("result", Json.mkObj [("ok", natJ r)]), ("heap", Json.arr (h.map objJ).toArray)])
     | .error e => pure (Json.mkObj [("result", Json.mkObj [("err", errJ e)])])
